@@ -10,6 +10,7 @@ ASSUMPTIONS = [
     "P11: the functions ParserState::{compute_bias, with_items_limit, has_pending_lexeme_bytes, lexer_state, num_rows, rollback, assert_definitive, assert_definitive_inner, check_lexer_bytes_invariant} and Parser::invalidate_bias_cache are cut verbatim from /repo's current earley/parser.rs on every run and re-hosted in a mock parser state with the same field names (real LexerState, BiasCache, StateID, ParserStats, SimpleVob)",
     "stub contract (part of the claim): the trie walk, flush_lexer() and lexer_allows_eos() answer as an arbitrary FUNCTION of (lexer state on top of the stack, content of the current Earley row, whether the current lexeme has pending bytes); row content is a ghost version number: a row keeps it while it stays on the stack, a row opened later gets a fresh one even at the same index; definitive progress = push one byte, staying in the row or opening the next row (arbitrary new lexer state); run_speculative, Instant, perf counters, lexer fuel are no-ops; no token-range lexemes are live (K19.4 decides those statements)",
     "histories: 0-2 bytes, a mask, then two operations out of {nothing, push a byte, rollback(1), rollback(2)} (10 concrete shapes; vector LENGTHS concrete per instance, every content and every stub answer symbolic), then: mask == mask after invalidate_bias_cache(); separately a mask with a non-empty start is neither served from nor stored in the cache; 3 lexer states, 4-token vocabulary",
+    "P11s (speculation leaves no trace): ParserState::{run_speculative, trie_started_inner, trie_finished_inner, pop_lexer_states, lexer_state, num_rows, assert_definitive*, check_lexer_bytes_invariant} verbatim; the speculative activity (trie walk, validation, forced-byte probe, is_accepting) is an arbitrary sequence of <= 3 pushes / pops of lexer states (never below the starting level: decided for the real walk by K16.3), grammar-stack pushes and writes of the speculative-only flags; afterwards the lexer stack equals the stack before entry by entry, the engine is in definitive mode, rows_valid_end == num_rows, the flush position and the log override are reset and the grammar stack is back to its length",
     "outside the claim: that the real walk IS such a function (row reuse during the speculative walk, lexer tables shared between clones), the row cache of the Earley rows themselves, is_accepting/ff_tokens caches of TokenParser beyond their invalidation points (decided under C12), fresh engine replaying the same tokens (needs the interpreter)",
 ]
 
@@ -21,7 +22,8 @@ def run():
     if tier() == "quick":
         keep = ("pre1_none", "pre0_push", "pre1_rb1_push", "pre2_rb1_push", "pre1_push_rb1", "start_bypasses", "witness")
         specs = [s for s in specs if any(k in s["name"] for k in keep)]
-    info = run_parser_groups("C11", "c11", ["pcache"], specs, out, jobs=4, harness_timeout_s=900, mem_gb=40)
+    specs += pp.specs("pspec", "c11", "c11_fail")
+    info = run_parser_groups("C11", "c11", ["pcache", "pspec"], specs, out, jobs=6, harness_timeout_s=900, mem_gb=40)
     cov = e1_coverage(out, [dict(harness=s["name"]) for s in specs[:8]],
                       ["earley/parser.rs ParserState::compute_bias (cache lookup, walk call, post-walk statements, cache update), rollback, with_items_limit, has_pending_lexeme_bytes, lexer_state, num_rows, assert_definitive*, check_lexer_bytes_invariant; Parser::invalidate_bias_cache (whole-function slices)",
                        "toktrie::SimpleVob::{alloc, allow_token, disallow_token, is_allowed, clone}"],
